@@ -138,8 +138,12 @@ class Picmg(object):
         req.link_info.port_1 = (link_descr.link_flags >> 1) & 1
         req.link_info.port_2 = (link_descr.link_flags >> 2) & 1
         req.link_info.port_3 = (link_descr.link_flags >> 3) & 1
-        req.link_info.type = link_descr.type
-        req.link_info.sig_class = link_descr.sig_class
+        # the link type is the byte [19:12] of the link descriptor: the
+        # signaling class is its upper nibble, the OEM link types
+        # (F0h..FEh, LinkDescriptor.TYPE_OEMx) occupy all eight bits
+        link_type = (link_descr.type | (link_descr.sig_class or 0) << 4) & 0xff
+        req.link_info.type = link_type & 0xf
+        req.link_info.sig_class = link_type >> 4
         req.link_info.type_extension = link_descr.extension
         req.link_info.grouping_id = link_descr.grouping_id
         req.state = state
@@ -162,6 +166,10 @@ class Picmg(object):
             link.link_flags = rsp.data[1] & 0xf
             link.type = rsp.data[1] >> 4 & 0xf
             link.sig_class = rsp.data[2] & 0xf
+            if link.sig_class == 0xf:
+                # F0h..FFh: an OEM link type (LinkDescriptor.TYPE_OEMx)
+                link.type |= 0xf0
+                link.sig_class = 0
             link.extension = rsp.data[2] >> 4 & 0xf
             link.grouping_id = rsp.data[3]
             state = rsp.data[4]
